@@ -591,6 +591,68 @@ func genSeqPlan(prop string, seed uint64, tier string) *Plan {
 		idBase = id
 		restarts = 2
 	}
+	if (prop == "C03" || prop == "C07" || prop == "C18") && len(c.Served) > 0 && p.Extra["scenario"] == 0 && bulk == 0 && len(p.Ops) == 0 && r.Bool(1, 5) {
+		// overflow template: a short file 0, a file 1 full of live records of distinct keys, a pass
+		// over [1,1]: the destination (file 0, not full) fills up in the middle of file 1 and the
+		// pass rotates onto the very file it is reading, which is rewritten in place from then on
+		id := idBase
+		add := func(op Op) { id++; op.ID = id; p.Ops = append(p.Ops, op) }
+		c.BodyMax = 300
+		c.DataFileMax = 2048
+		c.normalize()
+		b := c.Served[r.Intn(len(c.Served))]
+		// distinct keys of that bucket
+		var ks []int
+		for i, k := range p.Keys {
+			if bucketOf(c, k) == b && len(k) <= 60 {
+				ks = append(ks, i) // (key <= 60 and value <= 120 bytes: every record is one 256-byte block)
+			}
+		}
+		for tries := 0; len(ks) < 14 && tries < 4000; tries++ {
+			k := genKeyBytes(r)
+			if len(k) > 60 {
+				k = k[:60]
+			}
+			dup := false
+			for _, o := range p.Keys {
+				if string(o) == string(k) {
+					dup = true
+				}
+			}
+			if !dup && bucketOf(c, k) == b {
+				p.Keys = append(p.Keys, k)
+				ks = append(ks, len(p.Keys)-1)
+			}
+		}
+		if len(ks) >= 14 {
+			one := func(k int) Op {
+				return Op{Kind: "set", K: k, Verb: "set", V: ValSpec{Class: r.Pick(VConst, VText, VRandom), Len: r.Pick(8, 10, 40, 120), Seed: uint32(r.U64())}}
+			}
+			n0 := r.Range(2, 4)
+			for j := 0; j < n0; j++ {
+				add(one(ks[j]))
+			}
+			add(Op{Kind: "restart", Del: [][]string{{}, {"tree"}}[r.Intn(2)], DelSeed: uint32(r.U64())})
+			for j := 0; j < 8; j++ {
+				add(one(ks[n0+j]))
+			}
+			add(one(ks[n0+8]))
+			if r.Bool(1, 2) {
+				add(one(ks[n0+9]))
+			}
+			if r.Bool(2, 3) {
+				// a clean restart leaves hint files for every data file, file 1 included
+				add(Op{Kind: "restart", Del: [][]string{{}, {"tree"}}[r.Intn(2)], DelSeed: uint32(r.U64())})
+			} else {
+				add(Op{Kind: "flush"})
+			}
+			add(Op{Kind: "gc", GCBucket: b, GCStart: 1, GCEnd: 1, GCDays: 0, Merge: r.Bool(1, 2)})
+			add(Op{Kind: "restart", Del: [][]string{{"tree"}, {"tree", "hint"}, {}}[r.Intn(3)], DelSeed: uint32(r.U64())})
+			idBase = id
+			restarts = 2
+			p.Extra["overflowTemplate"] = 1
+		}
+	}
 	if prop == "C17" && len(c.Served) > 0 && p.Extra["scenario"] == 0 && r.Bool(1, 4) {
 		// age-limit template: the file following a range changes its first record (an in-place
 		// pass drops a dead first record) between two requests that look at its age
